@@ -54,6 +54,47 @@ def single_line_oracle(term, smart):
     return L, bad
 
 
+def flat_text(t):
+    """the one-line rendering of a document without forced breaks, read off the term itself (no engine involved)"""
+    k = t[0]
+    if k == 'N' or k == 'SL':
+        return ''
+    if k == 'T':
+        return t[1]
+    if k == 'L':
+        return ' '
+    if k in ('C', 'Fi'):
+        return ''.join(flat_text(x) for x in t[1])
+    if k in ('G', 'Al'):
+        return flat_text(t[1])
+    if k in ('Ne', 'Hg', 'An'):
+        return flat_text(t[2])
+    if k == 'FC':
+        return flat_text(t[2])
+    raise ValueError(t)
+
+
+def flat_oracle(term, smart):
+    """the clause itself, with the one-line text taken from the document and not from a wide layout: a GROUP
+    without forced breaks whose flat text has L columns is laid out as exactly that one line at every width
+    >= L with the ribbon as wide as the page.  -> (L, failing widths)"""
+    import engine
+    g = term if term[0] == 'G' else ('G', term)
+    flat = flat_text(g)
+    L = len(flat)
+    real = docgen.to_real(g)
+    bad = []
+    for w in (max(L, 1), L + 1, L + 7, BIG):
+        r = EC.split_result(engine.impl_layout(real, smart, w, 1.0))
+        if r is None:
+            bad.append(w)
+            continue
+        stream = laysem.parse_stream(r[0])
+        if any(it[0] == 'L' for it in stream) or ''.join(it[1] for it in stream if it[0] == 'T') != flat:
+            bad.append(w)
+    return L, bad
+
+
 def config_oracle(term, smart, w, frac):
     """the same clause at an arbitrary ribbon: a single-line layout of L columns
     must be kept at (w, frac) whenever L <= w and L <= the ribbon width the
@@ -144,7 +185,7 @@ def main(tier):
         r.shuffle(keys)
         limit = 2500 if tier == 'quick' else 20000
         dis_terms = [json.dumps(d['term']) for d in dis]
-        checked = single = 0
+        checked = single = flat_checked = 0
         for key in dis_terms + keys[:limit]:
             t = EC.detuple(json.loads(key))
             if not no_forced(t):
@@ -158,6 +199,14 @@ def main(tier):
                     small = docgen.shrink(t, lambda c: no_forced(c) and bool(single_line_oracle(c, smart)[1]))
                     run.violation({'kind': 'single-line-not-stable', 'term': small, 'original_term': t,
                                    'smart': smart, 'L': L, 'failing_widths': bad})
+                    break
+                L2, bad2 = flat_oracle(t, smart)
+                flat_checked += 1
+                if bad2:
+                    small = docgen.shrink(t, lambda c: no_forced(c) and bool(flat_oracle(c, smart)[1]))
+                    run.violation({'kind': 'fitting-group-broken', 'term': ('G', small) if small[0] != 'G' else small,
+                                   'original_term': t, 'smart': smart, 'L': L2, 'failing_widths': bad2,
+                                   'flat_text': flat_text(small)})
                     break
             if len(run.violations) >= 3:
                 break
@@ -195,13 +244,14 @@ def main(tier):
         run.coverage['probe_cases'] = nprobe
         run.coverage['config_oracle_checked'] = cfg_checked
         run.coverage['single_line_checked'] = checked
+        run.coverage['flat_text_oracle_checked'] = flat_checked
         run.coverage['single_line_documents'] = single
         run.coverage['rule'] = (
             'classic-algebra documents as for C05 (exhaustive <=4 nodes, sample of 5-node, random up to 40 nodes) x '
             'widths x ribbon fractions x both strategies, SDoc streams compared implementation vs model (decisions '
             'are compared through the output). Oracle on the implementation: for documents without forced breaks '
             'whose layout at width 10**6 is a single line of L columns, the layout at L..L+3 (ribbon=width) must be '
-            'that same stream; on the probe family  prefix group(a LINE b) [nest(k, HARDLINE t)]  the group may be broken '
+            'that same stream, and the document wrapped in a group is laid out as its flat text (read off the term) at widths L, L+1, L+7, 10**6; on the probe family  prefix group(a LINE b) [nest(k, HARDLINE t)]  the group may be broken '
             'only if its flat line passes page or ribbon or (smart only) the deeper-indented following line passes the '
             'page. non-trivial = distinct documents whose stream differs between two configurations')
         for d in dis[:3]:
@@ -227,6 +277,10 @@ def replay(path):
         L = config_oracle(t, p['smart'], p['width'], p['ribbon_frac'])
         print('term:', t, 'width', p['width'], 'ribbon_frac', p['ribbon_frac'], 'single line of', L, 'columns broken' if L else 'ok')
         return 1 if L is not None else 0
+    if p.get('kind') == 'fitting-group-broken':
+        L, bad = flat_oracle(t, p['smart'])
+        print('term:', t, 'flat text of', L, 'columns; failing widths:', bad)
+        return 1 if bad else 0
     L, bad = single_line_oracle(t, p['smart'])
     print('term:', t, 'L =', L, 'failing widths:', bad)
     return 1 if bad else 0
